@@ -146,7 +146,10 @@ func (f *LedgerFSM) Restore(r io.Reader) error {
 	if f.live() {
 		c.rec.Add(Event{Kind: "restore", Node: f.in.node.ID, Inc: f.in.inc, Restore: &RestoreInfo{FSM: f.id, Begin: true}})
 	}
-	if f.delays.Restore > 0 && f.in.started.Load() {
+	// no (virtual) sleep while the library holds the node's mutex: restore() at NewRaft / Start /
+	// Restart calls Restore under it, and a goroutine waiting for a mutex is not durably blocked,
+	// so the bubble's clock would stop for ever. InstallSnapshot calls Restore with the mutex released.
+	if f.delays.Restore > 0 && f.in.started.Load() && !calledFrom("jmsadair/raft.(*Raft).restore") {
 		time.Sleep(f.delays.Restore)
 	}
 	f.mu.Lock()
